@@ -90,6 +90,18 @@ pub fn check(ctx: &Ctx, t: &mut Tape<'_>, r: &mut Report) -> CheckResult {
         ensure!(core.get_block_pos() == Some(blk + (len / bs) as u128), format!("C04/block-pos/{}", f.core_type_name()), "core block position {:?} after {} blocks from {blk}", core.get_block_pos(), len / bs);
         return Ok(());
     }
+    // ... and a message with a partial tail through the core's one-shot `try_apply_keystream_partial`
+    // (far from the end of the keystream only: near it that provided method is known finding F3)
+    if via_core && off == 0 && len % bs != 0 && lim - blk > 1000 {
+        r.label("core-partial");
+        let mut core = f.make_core(Ctor::New, &key, &iv).expect("harness: ctor");
+        core.set_block_pos(blk).ok_or_else(|| Violation { sig: format!("C04/not-seekable/{ty}"), msg: "core cannot be positioned".into() })?;
+        let mut out = prefill(pre.0, pre.1, &data);
+        ensure!(core.try_apply_partial(&data, &mut out).is_ok(), format!("C04/partial-rejected/{}", f.core_type_name()), "try_apply_keystream_partial of {len} bytes at block {blk}, far from the end, failed");
+        let want = model.apply_at(blk, 0, &data);
+        ensure_eq_bytes!(out, want, format!("C04/output-core-partial/{}", f.core_type_name()), "{len} bytes from block {blk} through try_apply_keystream_partial");
+        return Ok(());
+    }
     let mut s = position_stream(f, &model, &key, &iv, p, bs, reach, "C04")?;
     let out = run_stream(s.as_mut(), &data, &cuts, &kinds, pre).map_err(|v| with_sig("C04", &ty, v))?;
     let want = model.apply_at(blk, off, &data);
